@@ -3107,6 +3107,9 @@ class Trimesh(Geometry3D):
         copied._cache.verify()
 
         if include_cache:
+            # make sure we are not handing over values computed
+            # before our own data was last changed in-place
+            self._cache.verify()
             # shallow copy cached items into the new cache
             # since the data didn't change here when the
             # data in the new mesh is changed these items
